@@ -56,6 +56,8 @@ func runC06(c *Ctx) {
 	c06Not(c, T, parms)
 	c06Dispatch(c, barms, parms)
 	nullDefinition(c, "C06.null-definition")
+	// "null is falsy" covers a nil pointer read out of the data: member access hands it on as null
+	c16NilUnified(c, d, "C06.null-members-are-null")
 	// "evaluates only the selected branch" of a chained `a ? b : c ? d : e` presupposes the grouping a ? b : (c ? d : e):
 	// the parser's layering of `?:` (shared with C02)
 	if ro := c.needRoles("C06.roles"); ro != nil {
